@@ -216,6 +216,12 @@ def run(ctx):
                         compare(ctx, name, lib, smi, base, sp, r, 'permutation')
         full.run()
         pipe.run()
+        # C19 ∘ C14: the spelling of group names in the library's files
+        if ctx.time_left() > 90:
+            P.entry_lookup_oracle(ctx, name, lib, rng.randrange(2 ** 32))
+            sample = [x for (n_, x), o in pipe.memo.items() if n_ == name and 'ok' in o]
+            rng.shuffle(sample)
+            P.library_spelling_oracle(ctx, name, lib, rng.randrange(2 ** 32), sample[:ctx.n(4, 40)], pipe.open(name, lib)[1])
     full.run()
     pipe.run()
     replies = ctx.model([b[0] for b in batch])
@@ -243,6 +249,7 @@ def pipeline_step(ctx, name, lib, smi, sp, pipe, first=True):
     base = pipe.add(name, lib, smi)
     other = pipe.add(name, lib, sp)
     P.equiv_oracle(ctx, name, info, smi, base, sp, other, Ts)
+    P.sum_oracle(ctx, name, info, smi, base, Ts)
     if first and pipe.steps[name] % 2 == 1:
         P.respell_oracle(ctx, name, info, smi, base, Ts, ctx.rng.randrange(2 ** 32))
     return 1
